@@ -3,10 +3,8 @@ from .. import access
 from ..cfg import search, witness_str, elem_dominates
 from ..expr import show, walk, last, field_of, strip_wrappers, strip_casts, short, const_value, access_path
 from ..facts import AnalysisBroken
-from ..predabs import Vocab, PredAbs, A, Not, And, Or, T, F
+from ..predabs import Vocab, PredAbs, A, Not, And, Or, T, F, translate, total, known_when, atoms_of
 from ..rules import common
-from . import c01
-from .c02 import cb_invocations, cbset_leaf
 
 TITLE = "TLS sessions authenticate the peer as configured and never downgrade"
 TECHNIQUE = 'custom static analysis over clang-14 CFG facts: call-site rules over OpenSSL primitives (constant command/flag words), typestate of the TLS context (no plaintext path when TLS was requested), dominance'
@@ -21,7 +19,7 @@ EXPLANATION = (
     "Static API-protocol rules over the resolved OpenSSL calls of tcp_engine.hpp plus predicate abstraction: R1 on every successful path "
     "of initTls through an enabled block with verifyPeer, SSL_CTX_set_verify was called on that context with SSL_VERIFY_PEER (server: also "
     "FAIL_IF_NO_PEER_CERT), a null callback, and trust anchors were loaded (client: or default paths); nothing in the library lowers "
-    "verification; R2 every context passes through applyTls12Floor before initTls succeeds and the value handed to "
+    "verification; the client context loads the process-wide default trust locations only where no caFile/caPath is configured and loads the configured ones where they are (the trust anchor set is exactly what was configured); R2 every context passes through applyTls12Floor before initTls succeeds and the value handed to "
     "SSL_CTX_set_min_proto_version is >= TLS 1.2 on both arms of the clamp; no maximum-version / no-TLS1.2 option anywhere; R3 the results "
     "of certificate, key, key-match and CA loading are tested and fail initTls, and an expired/unparseable notAfter fails it; R4 the "
     "connect announcement for a TLS session is reachable only behind SSL_do_handshake()==1, the plain-TCP announcements only without "
@@ -31,10 +29,604 @@ EXPLANATION = (
     "the handshake, and the name given to the engine is the URL host; R8 every field of HttpClient::TlsConfig is used where the "
     "transport's client TLS configuration is built.")
 NOT_DECIDED = ["what OpenSSL's verifier accepts (trusted base)", "cipher strength", "the matrix of real certificates"]
+_VIEW = "judged on a view of the anchor function with every TLS-relevant helper of the class spliced in (parameters bound to the call's arguments, helper results carried to the caller's test)"
+FOLLOWS_HELPERS = {"C07-R1": _VIEW + "; the 'never lowered' clause is universal over all functions", "C07-R2": _VIEW, "C07-R3": _VIEW, "C07-R4": _VIEW + "; announce sites in helpers count only when spliced into one of the three judged functions",
+                   "C07-R5": _VIEW, "C07-R6": _VIEW, "C07-R7": _VIEW, "C07-R8": "the configuration builder is ensureInitialized plus every HttpClient method it calls (call-graph closure)"}
 
 
 def fn(ctx, name):
     return ctx.fb().func(TE + "::" + name, file_suffix=FILE)
+
+
+# ------------------------------------------------------------------ views: helper functions spliced into their callers
+#
+# The rules below speak about a handful of anchor functions (initTls, doConnect, onListener, driveHandshake, onSession, doSend,
+# writePending).  Code that a refactoring moves out of an anchor into a helper of the same class (or that was always there)
+# must be judged exactly as if it still stood in the anchor.  `view(fb, f)` returns a synthetic Function: f's CFG with every
+# call to a TLS-relevant helper of the same class replaced by a copy of the helper's CFG (recursively), the helper's
+# parameters replaced by the call's (pure) argument expressions, constants folded (`role == TlsMode::Client` with role :=
+# TlsMode::Client) and the branches that became constant pruned.  The helper's `return v` becomes an `iret` element; ViewAbs
+# (below) carries its value to the caller's test of the call in the ghost atom `hret`.  Dominance, search() and PredAbs then
+# work on the view unchanged.  Which helpers are spliced is decided by what their bodies contain (RELEVANT), never by name;
+# the anchors themselves (KEEP) are never spliced: the rules know them and summarise them where needed.
+CBS = "iora::network::detail::EngineBase::Callbacks::"
+KEEP = {TE + "::" + x for x in ("initTls", "applyTls12Floor", "freeTls", "doConnect", "onListener", "doAddListener", "onSession", "driveHandshake", "doSend",
+                                "writePending", "readAvail", "closeNow", "updateInterest", "shutdownDrain", "loop", "start", "stop")}
+_RAW_IO = ("send", "write", "sendto", "sendmsg", "writev", "recv", "read")
+
+
+def _relevant_node(n):
+    k = n.get("k")
+    if k == "call":
+        c = n.get("callee") or ""
+        if c.startswith(("SSL_", "X509_", "TLS_")) or c in _RAW_IO:
+            return True
+    if k in ("call", "mcall") and n.get("callee") in KEEP:
+        return True
+    if k == "member":
+        nm = n.get("n") or ""
+        return nm in (SESS + "::tlsMode", SESS + "::tlsState", SESS + "::ssl", CBS + "onConnect", TE + "::_sslCli", TE + "::_sslSrv", TE + "::_sessions", TE + "::_listeners") or \
+            nm.startswith("iora::network::TransportConfig::TlsConfig::")
+    return False
+
+
+_FOLD_BIN = {"==": lambda a, b: a == b, "!=": lambda a, b: a != b, "<": lambda a, b: a < b, ">": lambda a, b: a > b, "<=": lambda a, b: a <= b, ">=": lambda a, b: a >= b,
+             "&&": lambda a, b: bool(a) and bool(b), "||": lambda a, b: bool(a) or bool(b)}
+
+
+def _fold(n):
+    """constant value of a (cloned) expression tree, or None"""
+    if not isinstance(n, dict):
+        return None
+    k = n.get("k")
+    if k in ("int", "bool", "enum", "char") and n.get("cv") is not None:
+        return n["cv"]
+    if k == "cast":
+        return _fold(n.get("v"))
+    if k == "un" and n.get("op") == "!":
+        v = _fold(n.get("v"))
+        return None if v is None else (0 if v else 1)
+    if k == "bin" and n.get("op") in _FOLD_BIN:
+        a, b = _fold(n.get("lhs")), _fold(n.get("rhs"))
+        if n["op"] == "&&" and (a == 0 and a is not None or b == 0 and b is not None):
+            return 0
+        if n["op"] == "||" and (a or b):
+            return 1
+        if a is None or b is None:
+            return None
+        return 1 if _FOLD_BIN[n["op"]](a, b) else 0
+    return None
+
+
+_PURE_ARG_KINDS = ("var", "member", "this", "enum", "int", "bool", "null", "str", "char", "cast", "gvar")
+
+
+def _pure_arg(n):
+    """an argument expression that can stand for the parameter inside the helper: no call, no effect (smart-pointer get / -> / * and
+    string c_str are looked through)"""
+    for x in walk(n):
+        k = x.get("k")
+        if k in _PURE_ARG_KINDS:
+            continue
+        if k == "un" and x.get("op") in ("&", "*", "-", "!"):
+            continue
+        if k == "mcall" and last(x.get("callee", "")) in ("get", "c_str", "operator->", "operator*") and not x.get("args"):
+            continue
+        if k == "opcall" and x.get("op") in ("->", "*") and len(x.get("args", [])) == 1:
+            continue
+        return False
+    return True
+
+
+class _Views:
+    def __init__(self, fb):
+        self.fb = fb
+        self.memo = {}
+        self.rel = {}
+
+    def helper_of(self, f, n, chain=()):
+        """the Function a call node of f resolves to if it is a same-class helper that can be spliced in, else None"""
+        k = n.get("k")
+        if k not in ("call", "mcall") or n.get("virt"):
+            return None
+        c = n.get("callee") or ""
+        if c in KEEP or c == f.name or c in chain or c.startswith("std::"):
+            return None
+        # a member function called on another object (`s->handshaking()`) is spliced with `this` bound to that object
+        if k == "mcall" and (n.get("obj") or {}).get("k") not in (None, "this") and not _pure_arg(n["obj"]):
+            return None
+        hs = [h for h in self.fb.by_name.get(c, []) if h.file == f.file]      # defined in the same header as the anchor
+        if len({(h.file, h.line) for h in hs}) != 1:
+            return None
+        h = hs[0]
+        if not h.ok or h.kind not in ("method", "function") or h.raw.get("trys"):
+            return None
+        if len([a for a in n.get("args", [])]) != len(h.params):
+            return None
+        return h if self.relevant(h, chain + (f.name,)) else None
+
+    def relevant(self, h, chain=()):
+        if h.name in self.rel:
+            return self.rel[h.name]
+        self.rel[h.name] = False
+        r = any(_relevant_node(n) for n in h.nodes.values())
+        if not r and len(chain) < 4:
+            r = any(self.helper_of(h, n, chain) is not None for n in h.nodes.values() if n.get("k") in ("call", "mcall"))
+        self.rel[h.name] = r
+        return r
+
+    def view(self, f, chain=()):
+        if f.sig in self.memo:
+            return self.memo[f.sig]
+        # a local lambda that is invoked in place is a helper too, but its body is not spliced (captures are not parameters): if it holds
+        # TLS-relevant statements the function cannot be judged — refuse rather than judge it without them
+        for n in f.nodes.values():
+            lf = local_lambda(f, n)
+            if lf is not None and lf.ok and any(_relevant_node(x) for x in lf.nodes.values()):
+                raise AnalysisBroken("%s invokes a local lambda (line %s) that contains TLS-relevant statements; lambdas are not followed" % (short(f.name), n.get("l", "?")))
+        sites = {}
+        if len(chain) < 4:
+            for b in f.blocks.values():
+                for e in b.elems:
+                    if e.kind == "stmt" and e.node.get("k") in ("call", "mcall") and "id" in e.node:
+                        h = self.helper_of(f, e.node, chain)
+                        if h is not None:
+                            sites.setdefault(b.id, []).append((e.idx, e, h))
+        if not sites:
+            f.inlined_calls, f.inlined_names, f._c07_fb = getattr(f, "inlined_calls", {}), getattr(f, "inlined_names", set()), self.fb
+            self.memo[f.sig] = f
+            return f
+        cnt = {"id": max(list(f.nodes) + [0]) + 1, "b": max(f.blocks) + 1, "d": 1 + max([x.get("d", 0) for x in f.nodes.values() if isinstance(x.get("d"), int)] +
+                                                                                 [v.get("d", 0) for x in f.nodes.values() if x.get("k") == "decl" for v in x.get("vars", [])] + [p.get("d", 0) for p in f.params] + [0])}
+        blocks = {}
+        for rb in f.raw["blocks"]:
+            nb = dict(rb)
+            nb["elems"] = list(rb["elems"])
+            blocks[rb["id"]] = nb
+        inl, names = {}, set()
+        for bid, lst in sites.items():
+            cur = blocks[bid]
+            off = 0
+            for (idx, e, h) in sorted(lst, key=lambda t: t[0]):
+                hv = self.view(h, chain + (f.name,))
+                j = idx - off
+                rest = {"id": cnt["b"], "elems": cur["elems"][j:], "succs": cur["succs"]}
+                cnt["b"] += 1
+                for key in ("term", "noreturn", "looptarget"):
+                    if key in cur:
+                        rest[key] = cur.pop(key)
+                cur["elems"] = cur["elems"][:j]
+                root = f.root_elem(e.node)
+                entry, exit_, new = self._clone(hv, e.node, cnt, (root.raw.get("try", 0), root.raw.get("catch", 0)) if root is not None else (0, 0), inl)
+                cur["succs"] = [entry]
+                new[exit_]["succs"] = [rest["id"]]
+                blocks.update(new)
+                blocks[rest["id"]] = rest
+                inl[e.node["id"]] = h.name
+                names.add(h.name)
+                names |= getattr(hv, "inlined_names", set())
+                cur, off = rest, idx
+        raw = dict(f.raw)
+        raw["blocks"] = list(blocks.values())
+        from ..facts import Function
+        v = Function(raw)
+        for n in v.nodes.values():
+            if n.get("k") == "lambda":
+                for lf in self.fb.by_name.get(n.get("fn"), []):
+                    if lf.file == f.file:
+                        v.lambdas.append((n, lf))
+        v.inlined_calls, v.inlined_names, v.base, v._c07_fb = inl, names, f, self.fb
+        self.memo[f.sig] = v
+        return v
+
+    def _clone(self, h, call, cnt, lex, inl):
+        """copy h's (already spliced) CFG with fresh node / block / declaration ids and the parameters replaced by the call's arguments"""
+        idoff, doff = cnt["id"], cnt["d"]
+        boff = cnt["b"]
+        hids = list(h.nodes) + [0]
+        cnt["id"] += max(hids) + 1
+        cnt["b"] += max(h.blocks) + 1
+        cnt["d"] += 1 + max([x.get("d", 0) for x in h.nodes.values() if isinstance(x.get("d"), int)] + [v.get("d", 0) for x in h.nodes.values() if x.get("k") == "decl" for v in x.get("vars", [])] +
+                            [p.get("d", 0) for p in h.params] + [0])
+        args = call.get("args", [])
+        thisobj = call.get("obj") if call.get("k") == "mcall" and (call.get("obj") or {}).get("k") not in (None, "this") else None
+        written = set()      # parameters the helper assigns / takes the address of: they keep their own identity
+        hfields = {n["n"] for n in h.nodes.values() if n.get("k") == "member" and access.classify(h, n) in ("write", "rw")}
+        for n in h.nodes.values():
+            tgt = None
+            if n.get("k") == "bin" and n.get("op", "").endswith("=") and n["op"] not in ("==", "!=", "<=", ">="):
+                tgt = n.get("lhs")
+            elif n.get("k") == "un" and ("++" in n.get("op", "") or "--" in n.get("op", "") or n.get("op") == "&"):
+                tgt = n.get("v")
+            elif n.get("k") == "opcall" and n.get("op", "").endswith("=") and n["op"] not in ("==", "!=", "<=", ">=") and n.get("args"):
+                tgt = n["args"][0]
+            if isinstance(tgt, dict) and tgt.get("k") == "var" and "parm" in tgt:
+                written.add(tgt["parm"])
+        subst = {}
+        for i, a in enumerate(args):
+            if i in written or not _pure_arg(a):
+                continue
+            if any(x.get("k") == "member" and x.get("n") in hfields for x in walk(a)):
+                continue        # the helper writes a field the argument reads: the parameter froze the old value
+            subst[i] = a
+
+        def fresh(x):
+            if isinstance(x, list):
+                return [fresh(y) for y in x]
+            if not isinstance(x, dict):
+                return x
+            out = {k: fresh(v) for k, v in x.items()}
+            if "id" in out:
+                out["id"] = cnt["id"]
+                cnt["id"] += 1
+            return out
+
+        def clone(x):
+            if isinstance(x, list):
+                return [clone(y) for y in x]
+            if not isinstance(x, dict):
+                return x
+            if x.get("k") == "var" and x.get("parm") in subst and "iparm" not in x:
+                out = fresh(subst[x["parm"]])
+                out["id"] = x["id"] + idoff
+                return out
+            if x.get("k") == "this" and thisobj is not None:
+                out = fresh(thisobj)
+                if "id" in x:
+                    out["id"] = x["id"] + idoff
+                return out
+            out = {}
+            for k, v in x.items():
+                if k in ("id", "call") and isinstance(v, int):
+                    out[k] = v + idoff
+                elif k == "d" and isinstance(v, int):
+                    out[k] = v + doff
+                elif k == "parm":
+                    out["iparm"] = v
+                else:
+                    out[k] = clone(v)
+            if out.get("k") == "ret":
+                out["k"], out["call"] = "iret", call["id"]
+            return out
+        new = {}
+        roots = []
+        for b in h.raw["blocks"]:
+            nb = {"id": b["id"] + boff, "elems": [], "succs": [(s + boff) if isinstance(s, int) else None for s in b["succs"]]}
+            if b.get("noreturn"):
+                nb["noreturn"] = True
+            if b.get("label"):
+                nb["label"] = clone(b["label"])
+            if b.get("term"):
+                t = dict(b["term"])
+                for key in ("cond", "fullcond"):
+                    if isinstance(t.get(key), int):
+                        t[key] = t[key] + idoff
+                t.pop("try", None)
+                nb["term"] = t
+            for re_ in b["elems"]:
+                ne = {}
+                for k, v in re_.items():
+                    if k == "e":
+                        ne[k] = v + idoff
+                    elif k == "d" and isinstance(v, int):
+                        ne[k] = v + doff
+                    elif k in ("root", "v"):
+                        ne[k] = clone(v)
+                    elif k in ("try", "catch", "catchidx"):
+                        continue
+                    else:
+                        ne[k] = v
+                if "root" in ne:
+                    if lex[0]:
+                        ne["try"] = lex[0]
+                    if lex[1]:
+                        ne["catch"] = lex[1]
+                    roots.append(ne["root"])
+                nb["elems"].append(ne)
+            new[nb["id"]] = nb
+        for cid, nm in getattr(h, "inlined_calls", {}).items():
+            inl[cid + idoff] = nm
+        # fold what the substitution made constant, look through const locals that became constants, prune constant branches
+        consts = {}
+        byid = {}
+        for _ in range(4):
+            changed = False
+            for rt in roots:
+                for x in list(walk(rt)):
+                    if "id" in x:
+                        byid[x["id"]] = x
+                    k = x.get("k")
+                    if k == "var" and x.get("d") in consts:
+                        v = consts[x["d"]]
+                        keep = {kk: x[kk] for kk in ("id", "l", "t") if kk in x}
+                        x.clear()
+                        x.update(keep)
+                        x.update({"k": "bool" if (keep.get("t") or "").replace("const ", "") == "bool" else "int", "cv": v, "folded": True})
+                        changed = True
+                    elif k in ("bin", "un") and x.get("op") in list(_FOLD_BIN) + ["!"]:
+                        v = _fold(x)
+                        if v is not None:
+                            keep = {kk: x[kk] for kk in ("id", "l") if kk in x}
+                            x.clear()
+                            x.update(keep)
+                            x.update({"k": "bool", "cv": v, "t": "bool", "folded": True})
+                            changed = True
+                    elif k == "cond" and _fold(x.get("c")) is not None:
+                        pick = x["t"] if _fold(x["c"]) else x["f"]
+                        keep = {kk: x[kk] for kk in ("id",) if kk in x}
+                        x.clear()
+                        x.update(pick)
+                        x.update(keep)
+                        changed = True
+                    elif k == "decl":
+                        for dv in x.get("vars", []):
+                            if (dv.get("t") or "").startswith("const ") and dv.get("d") not in consts and _fold(dv.get("init")) is not None:
+                                consts[dv["d"]] = _fold(dv["init"])
+                                changed = True
+            if not changed:
+                break
+        for nb in new.values():
+            t = nb.get("term")
+            if t and len(nb["succs"]) == 2 and t.get("k") in ("IfStmt", "ConditionalOperator", "BinaryOperator", "WhileStmt", "ForStmt", "DoStmt"):
+                c = byid.get(t.get("cond"))
+                v = _fold(c) if c is not None else None
+                if v is not None and t.get("k") == "BinaryOperator" and t.get("op") not in ("&&", "||"):
+                    v = None
+                if v is not None:
+                    nb["succs"][1 if v else 0] = None
+        return h.raw["entry"] + boff, h.raw["exit"] + boff, new
+
+
+def const_locals(f):
+    """{declaration id: initialiser} of the `const` scalar locals of f whose initialiser reads nothing that can change after the declaration:
+    constants, parameters and locals that are never assigned again (no field, no call).  `const bool wantsRead = errc == SSL_ERROR_WANT_READ;
+    ... if (!wantsRead && ...)` is then the same test as the comparison written in place."""
+    if getattr(f, "_c07_cl", None) is not None:
+        return f._c07_cl
+    assigned = set()
+    for n in f.nodes.values():
+        tgt = None
+        if n.get("k") == "bin" and n.get("op", "").endswith("=") and n["op"] not in ("==", "!=", "<=", ">="):
+            tgt = n.get("lhs")
+        elif n.get("k") == "un" and ("++" in n.get("op", "") or "--" in n.get("op", "") or n.get("op") == "&"):
+            tgt = n.get("v")
+        elif n.get("k") == "opcall" and n.get("op", "").endswith("=") and n["op"] not in ("==", "!=", "<=", ">=") and n.get("args"):
+            tgt = n["args"][0]
+        tgt = strip_casts(tgt) if isinstance(tgt, dict) else None
+        if tgt is not None and tgt.get("k") == "var" and tgt.get("d") is not None:
+            assigned.add(tgt["d"])
+    out = {}
+    for n in f.nodes.values():
+        if n.get("k") != "decl":
+            continue
+        for v in n.get("vars", []):
+            t = (v.get("t") or "")
+            if not t.startswith("const ") or t.replace("const ", "") not in ("bool", "int", "unsigned int", "long", "unsigned long") or not isinstance(v.get("init"), dict):
+                continue
+            ok = True
+            for x in walk(v["init"]):
+                k = x.get("k")
+                if k in ("int", "bool", "enum", "char", "cast", "null"):
+                    continue
+                if k == "bin" and x.get("op") in ("==", "!=", "<", ">", "<=", ">=", "&&", "||", "+", "-", "*", "&", "|", "^"):
+                    continue
+                if k == "un" and x.get("op") in ("!", "-", "~", "+"):
+                    continue
+                if k == "var" and x.get("d") not in assigned:
+                    continue
+                ok = False
+                break
+            if ok:
+                out[v["d"]] = v["init"]
+    f._c07_cl = out
+    return out
+
+
+class ViewAbs(PredAbs):
+    """PredAbs over a view: (a) the value a spliced helper returns is kept in the ghost atom `hret` (set at the helper's `iret`, read where
+    the caller tests or returns the call), (b) conditions are read through const locals (const_locals) and folded constants."""
+
+    def __init__(self, f, vocab, leaf, effects, init=T, **kw):
+        inl = getattr(f, "inlined_calls", None) or {}
+        cl = const_locals(f)
+        if inl:
+            vocab = Vocab(list(vocab.atoms) + ["hret"])
+        self.has_hret = bool(inl)
+
+        def leaf2(n, depth=0):
+            r = leaf(n)
+            if r is not None:
+                return r
+            k = n.get("k")
+            if k in ("call", "mcall") and n.get("id") in inl:
+                return A("hret")
+            if k == "bool" and n.get("cv") is not None:
+                return T if n["cv"] else F
+            if k == "var" and n.get("d") in cl and depth < 6:
+                return translate(cl[n["d"]], lambda m: leaf2(m, depth + 1))
+            return None
+
+        def eff2(e):
+            ops = list(effects(e) or [])
+            if inl and e.kind == "stmt" and e.node.get("k") == "iret" and isinstance(e.node.get("v"), dict):
+                v = e.node["v"]
+                cv = const_value(v)
+                fb_ = getattr(f, "_c07_fb", None)
+                if cv is None and fb_ is not None:      # `return reporter(...)` where every return of reporter is one constant
+                    cv = 0 if always_returns(fb_, f, strip_casts(v), False) else (1 if always_returns(fb_, f, strip_casts(v), True) else None)
+                if cv is not None:
+                    ops.append(("set", "hret", bool(cv)))
+                else:
+                    fm = translate(v, leaf2)
+                    tf = total(fm)
+                    if tf is not None:
+                        ops.append(("assign", "hret", tf))
+                    else:
+                        ops += [("havoc", "hret"), ("assume", Or(Not(A("hret")), known_when(fm, True))), ("assume", Or(A("hret"), known_when(fm, False)))]
+            return ops
+        self.leaf2 = leaf2
+        PredAbs.__init__(self, f, vocab, leaf2, eff2, init=init, **kw)
+
+    def ret_true(self, ret):
+        """formula that holds exactly when the `return` element hands back true: T / F for a constant, `hret` for a spliced helper's result,
+        None when the value is something this analysis cannot read"""
+        v = strip_casts(ret.node.get("v") or {})
+        cv = const_value(v)
+        if cv is not None:
+            return T if cv else F
+        fm = total(translate(v, self.leaf2))
+        return fm
+
+
+def ret_value(fb, pa, f, ret):
+    """T / F / formula for 'this return hands back true' (ViewAbs.ret_true), reading `return reporter(...)` through a function all of whose
+    returns are one constant; None = unknown"""
+    ok = pa.ret_true(ret)
+    if ok is None:
+        v = strip_casts(ret.node.get("v") or {})
+        if always_returns(fb, f, v, False):
+            return F
+        if always_returns(fb, f, v, True):
+            return T
+    return ok
+
+
+def local_lambda(f, n):
+    """the lambda Function invoked by `name(...)` where name is a local of f initialised with a lambda expression, else None"""
+    if n.get("k") != "opcall" or n.get("op") != "()" or not n.get("args"):
+        return None
+    t = strip_wrappers(n["args"][0])
+    if t is None or t.get("k") != "var" or t.get("d") is None:
+        return None
+    for x in f.nodes.values():
+        if x.get("k") == "decl":
+            for v in x.get("vars", []):
+                if v.get("d") == t["d"] and isinstance(v.get("init"), dict):
+                    i = strip_wrappers(v["init"])
+                    while i is not None and i.get("k") == "ctor" and len(i.get("args", [])) == 1:
+                        i = strip_wrappers(i["args"][0])
+                    if i is not None and i.get("k") == "lambda":
+                        for (ln, lf) in f.lambdas:
+                            if lf.name == i.get("fn"):
+                                return lf
+    return None
+
+
+def always_returns(fb, f, n, value):
+    """the call node n (in f) is a call of a library function (or of a local lambda) all of whose returns are the constant `value` (a failure
+    reporter such as `return fail("...")`): the call's result is that constant"""
+    c = n.get("callee") if n.get("k") in ("call", "mcall") else None
+    hs = [h for h in fb.by_name.get(c or "", []) if h.ok and h.file == f.file]
+    lf = local_lambda(f, n)
+    if lf is not None and lf.ok:
+        hs = [lf]
+    if not hs:
+        return False
+    for h in hs:
+        rets = common.returns(h)
+        if not rets or any(const_value(r_.node.get("v") or {}) is None or bool(const_value(r_.node.get("v"))) != bool(value) for r_ in rets):
+            return False
+    return True
+
+
+# ------------------------------------------------------------------ small helpers (self-contained: other properties' modules change independently)
+
+def result_decl(f, call_elem):
+    """declaration id of the local that receives the call's result (`int rc = call(...)` / `rc = call(...)`), else None"""
+    pid = f.parent.get(call_elem.node["id"])
+    while pid is not None:
+        p = f.nodes[pid]
+        if p.get("k") == "cast":
+            pid = f.parent.get(pid)
+            continue
+        if p.get("k") == "bin" and p["op"] == "=" and p["lhs"].get("k") == "var":
+            return p["lhs"].get("d")
+        if p.get("k") == "decl":
+            for v in p["vars"]:
+                if v.get("init") is not None and any(x is call_elem.node for x in walk(v["init"])):
+                    return v.get("d")
+        return None
+    return None
+
+
+def cb_invocations(f, cbname):
+    """invocations of a copy of _cbs.<cbname> (copy-then-invoke idiom; the copy is identified by its declaration, not its name) or of the member itself"""
+    copies = set()
+    for n in f.nodes.values():
+        if n.get("k") == "opcall" and n.get("op") == "=" and len(n["args"]) == 2:
+            if field_of(strip_wrappers(n["args"][1])) == CBS + cbname and n["args"][0].get("k") == "var":
+                copies.add(n["args"][0].get("d"))
+        if n.get("k") == "decl":
+            for v in n["vars"]:
+                i = v.get("init")
+                if i is not None and any(x.get("k") == "member" and x["n"] == CBS + cbname for x in walk(i)) and "std::function" in v["t"]:
+                    copies.add(v.get("d"))
+    out = []
+    for (e, tgt) in common.fn_invocations(f):
+        t = strip_wrappers(tgt)
+        if (t.get("k") == "var" and t.get("d") in copies) or field_of(t) == CBS + cbname:
+            out.append(e)
+    return out
+
+
+def cbset_leaf(n):
+    """`if (cb)` on a copied std::function: the callback is assumed installed (DESIGN 1.3 A2 copy-then-invoke)"""
+    if n.get("k") == "mcall" and last(n.get("callee", "")).startswith("operator bool") and "std::function" in (n.get("obj") or {}).get("t", ""):
+        return T
+    return None
+
+
+def tls_leaf(n):
+    """atoms for the per-session TLS state: tls (tlsMode != None), hs / open (tlsState), dh_ok (result of driveHandshake)"""
+    if n.get("k") == "mcall" and n.get("callee") == TE + "::driveHandshake":
+        return A("dh_ok")
+    if n.get("k") == "bin" and n["op"] in ("==", "!="):
+        l, rr = strip_casts(n["lhs"]), strip_casts(n["rhs"])
+        f = field_of(l) if l.get("k") == "member" else None
+        en = rr["n"] if rr.get("k") == "enum" else None
+        if f == SESS + "::tlsMode" and en and en.endswith("TlsMode::None"):
+            return Not(A("tls")) if n["op"] == "==" else A("tls")
+        if f == SESS + "::tlsState" and en:
+            a = {"Handshake": "hs", "Open": "open"}.get(last(en))
+            if a:
+                return A(a) if n["op"] == "==" else Not(A(a))
+            if last(en) == "None":
+                fm = And(Not(A("hs")), Not(A("open")))
+                return fm if n["op"] == "==" else Not(fm)
+    return None
+
+
+TLS_AXIOM = And(Or(Not(A("tls")), A("hs"), A("open")), Not(And(A("hs"), A("open"))))
+
+
+def tls_eff(e):
+    if e.kind != "stmt":
+        return None
+    n = e.node
+    if n.get("k") == "bin" and n["op"] == "=" and n["lhs"].get("k") == "member":
+        f = field_of(n["lhs"])
+        rr = strip_casts(n["rhs"])
+        if f == SESS + "::tlsState" and rr.get("k") == "enum":
+            v = last(rr["n"])
+            return [("set", "hs", v == "Handshake"), ("set", "open", v == "Open")]
+        if f == SESS + "::tlsMode":
+            return [("havoc", "tls")]
+    if n.get("k") == "mcall" and n.get("callee") == TE + "::driveHandshake":
+        # summary (checked in r6): driveHandshake returns true only with tlsState == Open
+        return [("havoc_all", ["hs", "open", "dh_ok"]), ("assume", TLS_AXIOM), ("assume", Or(Not(A("dh_ok")), And(A("open"), Not(A("hs")))))]
+    return None
+
+
+def views(ctx):
+    fb = ctx.fb()
+    if getattr(fb, "_c07_views", None) is None:
+        fb._c07_views = _Views(fb)
+    return fb._c07_views
+
+
+def vfn(ctx, name):
+    """the anchor function TcpEngine::<name> with its TLS-relevant helpers spliced in"""
+    return views(ctx).view(fn(ctx, name))
 
 
 CTRL = {("SSL_CTX_ctrl", 123): "SSL_CTX_set_min_proto_version", ("SSL_CTX_ctrl", 124): "SSL_CTX_set_max_proto_version",
@@ -62,11 +654,15 @@ def ctx_of(n):
     return {TE + "::_sslSrv": "srv", TE + "::_sslCli": "cli"}.get(f)
 
 
+def _tls_side(n):
+    p = access_path(n) or ()
+    return "srv" if any(x.endswith("::serverTls") for x in p) else ("cli" if any(x.endswith("::clientTls") for x in p) else None)
+
+
 def cfg_leaf(n):
     """atoms for the TLS configuration tests of initTls / doConnect / onListener"""
     if n.get("k") == "member" and n.get("t") == "bool":
-        p = access_path(n) or ()
-        side = "srv" if any(x.endswith("::serverTls") for x in p) else ("cli" if any(x.endswith("::clientTls") for x in p) else None)
+        side = _tls_side(n)
         if side and last(n["n"]) == "enabled":
             return A(side + "_en")
         if side and last(n["n"]) == "verifyPeer":
@@ -82,57 +678,129 @@ def cfg_leaf(n):
     return None
 
 
+CA_FIELDS = {"caFile": "cafile", "caPath": "capath"}
+
+
+def _ca_field(n):
+    """(side, atom stem) if n names serverTls/clientTls .caFile / .caPath"""
+    n = strip_wrappers(n) if n is not None else None
+    if n is not None and n.get("k") == "member" and last(n.get("n", "")) in CA_FIELDS:
+        side = _tls_side(n)
+        if side:
+            return side, CA_FIELDS[last(n["n"])]
+    return None
+
+
+def ca_leaf(n):
+    """'a CA file / CA directory is configured' in the spellings a string test takes: !x.empty(), x.size()/length() != 0 / > 0, x != "" """
+    if n.get("k") == "mcall" and last(n.get("callee", "")) == "empty" and not [a for a in n.get("args", []) if not a.get("def")]:
+        cf = _ca_field(n.get("obj"))
+        if cf:
+            return Not(A("%s_%s" % (cf[1], cf[0])))
+    cp = common.cmp_parts(n)
+    if cp:
+        op, l, rr = cp[0], strip_casts(cp[1]), strip_casts(cp[2])
+        if l.get("k") == "mcall" and last(l.get("callee", "")) in ("size", "length") and const_value(rr) == 0:
+            cf = _ca_field(l.get("obj"))
+            if cf and op in ("==", "!=", ">", "<="):
+                a = A("%s_%s" % (cf[1], cf[0]))
+                return a if op in ("!=", ">") else Not(a)
+        if op in ("==", "!=") and strip_wrappers(rr).get("k") == "str" and strip_wrappers(rr).get("v") == "":
+            cf = _ca_field(l)
+            if cf:
+                a = A("%s_%s" % (cf[1], cf[0]))
+                return Not(a) if op == "==" else a
+    return None
+
+
 def r1_r2(ctx, r1, r2):
-    f = fn(ctx, "initTls")
-    atoms = ["srv_en", "srv_def", "srv_verify", "cli_en", "cli_def", "cli_verify", "sv_srv", "ca_srv", "sv_cli", "ca_cli", "fl_srv", "fl_cli"]
-    vocab = Vocab(atoms)
+    fb = ctx.fb()
+    f = vfn(ctx, "initTls")
     sv = ssl_calls(f, ("SSL_CTX_set_verify",))
     ca = ssl_calls(f, ("SSL_CTX_load_verify_locations", "SSL_CTX_set_default_verify_paths"))
     floors = [e for e in f.stmts() if e.node.get("k") == "call" and e.node.get("callee") == TE + "::applyTls12Floor"]
-
-    def eff(e):
-        if e.kind != "stmt":
-            return None
-        n = e.node
-        for (x, nm) in sv:
-            if x is e:
-                c = ctx_of(n)
-                mode = const_value(n["args"][1]) if len(n["args"]) > 1 else None
-                cb = strip_casts(n["args"][2]) if len(n["args"]) > 2 else None
-                nullcb = cb is not None and (cb.get("k") == "null" or const_value(cb) == 0)
-                need = 3 if c == "srv" else 1
-                good = c is not None and mode is not None and (mode & need) == need and nullcb
-                return [("set", "sv_" + c, good)] if c else None
-        for (x, nm) in ca:
-            if x is e:
-                c = ctx_of(n)
-                if nm == "SSL_CTX_set_default_verify_paths" and c == "srv":
-                    return None     # the system store is not a trust anchor for client certificates
-                return [("set", "ca_" + c, True)] if c else None
-        if e in floors:
-            c = ctx_of(n)
-            return [("set", "fl_" + c, True)] if c else None
-        return None
-    pa = PredAbs(f, vocab, cfg_leaf, eff, init=And(*[Not(A(a)) for a in atoms[6:]]))
-    rets = [e for e in common.returns(f) if const_value(e.node.get("v") or {}) == 1]
-    if not rets:
+    rets = common.returns(f)
+    if not any(const_value(e.node.get("v") or {}) == 1 for e in rets):
         raise AnalysisBroken("initTls has no `return true`")
     for side, what in (("srv", "server"), ("cli", "client")):
+        # one abstraction per context: the configuration tests of that side, what was applied to its SSL_CTX, and which CA
+        # locations are configured (cafile / capath) versus which trust stores were loaded (load = the configured locations,
+        # dflt = the process-wide default locations)
+        atoms = [side + "_en", side + "_def", side + "_verify", "sv", "ca", "fl", "cafile_" + side, "capath_" + side, "load", "dflt"]
+        vocab = Vocab(atoms)
+
+        def eff(e, side=side):
+            if e.kind != "stmt":
+                return None
+            n = e.node
+            for (x, nm) in sv:
+                if x is e and ctx_of(n) == side:
+                    mode = const_value(n["args"][1]) if len(n["args"]) > 1 else None
+                    cb = strip_casts(n["args"][2]) if len(n["args"]) > 2 else None
+                    nullcb = cb is not None and (cb.get("k") == "null" or const_value(cb) == 0)
+                    need = 3 if side == "srv" else 1
+                    return [("set", "sv", mode is not None and (mode & need) == need and nullcb)]
+            for (x, nm) in ca:
+                if x is e and ctx_of(n) == side:
+                    if nm == "SSL_CTX_set_default_verify_paths":
+                        # the system store is not a trust anchor for client certificates
+                        return [("set", "dflt", True)] + ([("set", "ca", True)] if side == "cli" else [])
+                    return [("set", "ca", True), ("set", "load", True)]
+            if e in floors and ctx_of(n) == side:
+                return [("set", "fl", True)]
+            return None
+        def leaf(n, atoms=atoms):
+            fm = cfg_leaf(n) or ca_leaf(n)
+            return fm if fm is not None and atoms_of(fm) <= set(atoms) else None     # a test of the other side's configuration says nothing here
+        pa = ViewAbs(f, vocab, leaf, eff, init=And(*[Not(A(a)) for a in ("sv", "ca", "fl", "load", "dflt")]))
         blk = And(A(side + "_en"), A(side + "_def"))
+        vblk = And(blk, A(side + "_verify"))
+        configured = Or(A("cafile_" + side), A("capath_" + side))
         for ret in rets:
+            ok = ret_value(fb, pa, f, ret)
+            if ok == F:
+                continue        # a failing return (constant false, or a failure reporter whose every return is false)
+            # a return whose value this analysis cannot read is held to the obligations of `return true`
+            succ = T if ok is None else ok
             r1.instance()
-            r1.expect(pa.entails(ret, Or(Not(And(blk, A(side + "_verify"))), A("sv_" + side))), f, ret, "%s verify mode not set" % what,
+            r1.expect(pa.entails(ret, Or(Not(And(vblk, succ)), A("sv"))), f, ret, "%s verify mode not set" % what,
                       "initTls can succeed with %sTls.verifyPeer on without SSL_CTX_set_verify(%s, SSL_VERIFY_PEER%s, nullptr) having been applied: the peer's certificate is not checked" % (
                           what, "_sslSrv" if side == "srv" else "_sslCli", "|FAIL_IF_NO_PEER_CERT" if side == "srv" else ""),
                       okdesc="initTls: %s verifyPeer ⇒ set_verify with the required mode and a null callback" % what)
             r1.instance()
-            r1.expect(pa.entails(ret, Or(Not(And(blk, A(side + "_verify"))), A("ca_" + side))), f, ret, "%s trust anchors not loaded" % what,
+            r1.expect(pa.entails(ret, Or(Not(And(vblk, succ)), A("ca"))), f, ret, "%s trust anchors not loaded" % what,
                       "initTls can succeed with %s verification on but no trust anchor loaded%s" % (what, " (for a server the system store does not count)" if side == "srv" else ""),
                       okdesc="initTls: %s verifyPeer ⇒ trust anchors loaded" % what)
+            # the configured CA file / directory is what the peer is verified against: it was loaded
+            r1.instance()
+            r1.expect(pa.entails(ret, Or(Not(And(vblk, succ, configured)), A("load"))), f, ret, "%s configured CA not loaded" % what,
+                      "initTls can succeed with %s verification on and a caFile/caPath configured without SSL_CTX_load_verify_locations having loaded it: the peer is verified against "
+                      "something other than the configured trust anchor" % what, okdesc="initTls: %s CA configured ⇒ load_verify_locations" % what)
             r2.instance()
-            r2.expect(pa.entails(ret, Or(Not(blk), A("fl_" + side))), f, ret, "%s context without TLS 1.2 floor" % what,
+            r2.expect(pa.entails(ret, Or(Not(And(blk, succ)), A("fl"))), f, ret, "%s context without TLS 1.2 floor" % what,
                       "initTls can succeed with a %s context that never went through applyTls12Floor: TLS 1.0/1.1 would be negotiable" % what,
                       okdesc="initTls: %s context passes applyTls12Floor" % what)
+        # the trust anchor set is EXACTLY what was configured: the process-wide default locations (system bundle, SSL_CERT_FILE,
+        # SSL_CERT_DIR) may be loaded into a context only where no CA file and no CA directory is configured — on top of a
+        # pinned private CA they make every publicly rooted certificate acceptable.  (On the server context they never count.)
+        from ..finite import dominating_facts
+        for (e, nm) in ca:
+            if nm != "SSL_CTX_set_default_verify_paths" or ctx_of(e.node) != side or not pa.reachable(e):
+                continue
+            r1.instance()
+            if side == "srv":
+                r1.fail(f, e, "server default trust store loaded", "initTls loads the process-wide default trust locations into the SERVER context: client certificates issued by any public CA would be accepted")
+                continue
+            ok = pa.entails(e, And(Not(A("cafile_cli")), Not(A("capath_cli"))))
+            if not ok:
+                # a dominating test of caFile / caPath in a spelling ca_leaf does not read is a refusal, not a verdict
+                for (c, t) in dominating_facts(f, e):
+                    if any(_ca_field(x) for x in walk(c)) and not any(ca_leaf(x) is not None for x in walk(c)):
+                        raise AnalysisBroken("initTls:%d: caFile/caPath is tested in a form this rule does not read: %s" % (e.line, show(c)[:80]))
+            r1.expect(ok, f, e, "client default trust store added to a configured CA",
+                      "SSL_CTX_set_default_verify_paths(_sslCli) is reached on a path where clientTls.caFile / caPath may be configured (known: %s): the context then trusts every root of the process-wide "
+                      "default locations IN ADDITION to the configured CA, so a server whose certificate chains to a public/system root but not to the pinned CA is accepted" % (",".join(pa.describe(e)) or "nothing"),
+                      okdesc="client default trust locations only when no caFile/caPath is configured")
     # nothing lowers verification, anywhere
     fb = ctx.fb()
     nset = 0
@@ -147,7 +815,7 @@ def r1_r2(ctx, r1, r2):
             if nm in ("SSL_CTX_set_verify",):
                 mode = const_value(n["args"][1])
                 r1.instance()
-                r1.expect(g.name == TE + "::initTls" and mode is not None and mode & 1, g, e, "verification lowered", "%s calls SSL_CTX_set_verify with mode %s" % (short(g.name), mode),
+                r1.expect((g.name == TE + "::initTls" or g.name in f.inlined_names) and mode is not None and mode & 1, g, e, "verification lowered", "%s calls SSL_CTX_set_verify with mode %s" % (short(g.name), mode),
                           okdesc="%s: set_verify mode %s" % (short(g.name), mode))
             elif nm in ("SSL_set_verify", "SSL_CTX_set_cert_verify_callback", "SSL_set_verify_result", "X509_STORE_set_verify_cb", "X509_STORE_CTX_set_error"):
                 r1.instance()
@@ -171,7 +839,7 @@ def r1_r2(ctx, r1, r2):
     # (anything that is not a constant protocol version) has its result tested with a constant floor on the failure path
     import copy
     from ..finite import compile_expr, NotPure, dominating_facts
-    af = fn(ctx, "applyTls12Floor")
+    af = vfn(ctx, "applyTls12Floor")
     setv = ssl_calls(af, ("SSL_CTX_set_min_proto_version",))
     r2.instance()
     if not setv:
@@ -236,67 +904,119 @@ def r1_r2(ctx, r1, r2):
 
 
 def r3(ctx, r):
-    f = fn(ctx, "initTls")
+    f = vfn(ctx, "initTls")
     checked = ("SSL_CTX_use_certificate_file", "SSL_CTX_use_PrivateKey_file", "SSL_CTX_check_private_key", "SSL_CTX_load_verify_locations", "SSL_CTX_new")
     calls = ssl_calls(f, checked)
     if len(calls) < 8:
         raise AnalysisBroken("initTls: %d certificate/key/CA/context calls found, expected >= 8" % len(calls))
-    rets_true = [e for e in common.returns(f) if const_value(e.node.get("v") or {}) == 1]
+    # each of these calls reports failure through its result (0 / a null context); on every path on which the call was made and its success
+    # was not established, initTls does not return true.  Decided on the value of the tests made of the result (the call itself, the local
+    # or the field it was stored in; exact over {failure, success}), path-sensitively and through helpers — so `!= 1`, `<= 0`, `!ok`, a
+    # named bool, or a predicate helper wrapping the call are the same check.
+    fb = ctx.fb()
+    rets = common.returns(f)
     for (e, nm) in calls:
         r.instance()
-        # the branch that tests this call's result
-        blk = None
-        if nm == "SSL_CTX_new":
-            fld = None
-            pid = f.parent.get(e.node["id"])
-            p = f.nodes.get(pid)
-            if p is not None and p.get("k") == "bin" and p["op"] == "=":
-                fld = field_of(p["lhs"])
-            for b in f.blocks.values():
-                c = b.cond
-                if c is not None and fld and field_of(strip_casts(c.get("v") if c.get("k") == "un" else c)) == fld and elem_dominates(f, e, b.elems[-1]) if b.elems else False:
-                    blk = (b, 0 if c.get("k") == "un" and c["op"] == "!" else 1)
-                    break
-        else:
-            for b in f.blocks.values():
-                c = b.cond
-                if c is not None and any(x is e.node for x in walk(c)):
-                    cp = common.cmp_parts(c)
-                    if cp and const_value(cp[2]) == 1:
-                        blk = (b, 0 if cp[0] == "!=" else 1)
-        if blk is None:
+        d = result_decl(f, e)
+        p = f.nodes.get(f.parent.get(e.node["id"]))
+        while p is not None and p.get("k") == "cast":
+            p = f.nodes.get(f.parent.get(p["id"]))
+        fld = field_of(p["lhs"]) if p is not None and p.get("k") == "bin" and p["op"] == "=" and p["lhs"].get("k") == "member" else None
+        hit = []
+
+        def is_res(x, e=e, d=d, fld=fld):
+            x = strip_casts(x)
+            return x is e.node or (d is not None and x.get("k") == "var" and x.get("d") == d) or (fld is not None and x.get("k") == "member" and field_of(x) == fld)
+
+        def leaf(n, is_res=is_res, hit=hit):
+            cp = common.cmp_oriented(n, lambda x: (const_value(x) is not None or strip_casts(x).get("k") == "null") and not is_res(x))
+            if cp and is_res(cp[1]):
+                k = 0 if strip_casts(cp[2]).get("k") == "null" else const_value(cp[2])
+                test = {"==": lambda v: v == k, "!=": lambda v: v != k, "<": lambda v: v < k, ">": lambda v: v > k, "<=": lambda v: v <= k, ">=": lambda v: v >= k}[cp[0]]
+                hit.append(n)
+                return Or(*([A("ok")] if test(1) else []) + ([Not(A("ok"))] if test(0) else []))
+            if is_res(n):
+                hit.append(n)
+                return A("ok")
+            return None
+
+        def eff(x, e=e):
+            return [("set", "called", True), ("havoc", "ok")] if x is e else None
+        pa = ViewAbs(f, Vocab(["called", "ok"]), leaf, eff, init=Not(A("called")))
+        bad = None
+        for ret in rets:
+            ok = ret_value(fb, pa, f, ret)
+            if ok == F:
+                continue
+            if not pa.entails(ret, Or(Not(T if ok is None else ok), Not(A("called")), A("ok"))):
+                bad = ret
+                break
+        if bad is not None and not hit:
             r.fail(f, e, "%s result ignored" % nm, "the result of %s is not tested: a certificate/key/CA that failed to load leaves a half-configured context in use" % nm)
             continue
-        b, fail_edge = blk
-        s = b.succs[fail_edge]
-        w = search(f, ("block", s), lambda x: x in rets_true, eh=False) if s is not None else None
-        r.expect(w is None, f, e, "%s failure not fatal" % nm, "after %s fails initTls can still return true" % nm, witness=witness_str(f, w), okdesc="%s failure ⇒ return false" % nm)
-    # expiry
-    cmps = ssl_calls(f, ("X509_cmp_time",))
+        r.expect(bad is None, f, e, "%s failure not fatal" % nm, "after %s fails initTls can still return true%s" % (nm, " (line %s)" % bad.line if bad is not None else ""), okdesc="%s failure ⇒ return false" % nm)
+    # expiry: X509_cmp_time(notAfter, now) is -1 (already past), 0 (unparseable) or 1 (still valid); on every path on which it was evaluated
+    # and did not return 1, initTls fails.  Decided on the VALUE of the tests made of the result (exact over {-1, 0, 1}), so `cmp == 0 ||
+    # cmp < 0`, `cmp <= 0`, `!(cmp > 0)`, a named bool, or a predicate helper returning the comparison are all the same check.
+    cmps = [e for (e, nm) in ssl_calls(f, ("X509_cmp_time",)) if any(x.get("k") == "call" and "notAfter" in (x.get("callee") or "") for x in walk(e.node["args"][0]))]
     r.instance()
-    ok = False
-    if cmps:
-        nv = c01._result_var(f, cmps[0][0])
-        conds = [show(b.cond).replace(" ", "") for b in f.blocks.values() if b.cond is not None and nv and nv in show(b.cond)]
-        ok = any(c in ("%s==0" % nv, "%s<=0" % nv) for c in conds) and any(c in ("%s<0" % nv, "%s<=0" % nv) for c in conds)
-    r.expect(ok, f, cmps[0][0] if cmps else None, "expiry not checked", "initTls does not fail on an expired (cmp < 0) or unparseable (cmp == 0) server certificate notAfter",
-             okdesc="server certificate notAfter: cmp == 0 and cmp < 0 both fail")
+    if not cmps:
+        r.fail(f, None, "expiry not checked", "initTls does not fail on an expired (cmp < 0) or unparseable (cmp == 0) server certificate notAfter")
+        return
+    for e0 in cmps:
+        d = result_decl(f, e0)
+
+        def leaf(n, e0=e0, d=d):
+            def is_res(x):
+                x = strip_casts(x)
+                return x is e0.node or (d is not None and x.get("k") == "var" and x.get("d") == d)
+            cp = common.cmp_oriented(n, lambda x: const_value(x) is not None and not is_res(x))
+            if cp and is_res(cp[1]):
+                k = const_value(cp[2])
+                test = {"==": lambda v: v == k, "!=": lambda v: v != k, "<": lambda v: v < k, ">": lambda v: v > k, "<=": lambda v: v <= k, ">=": lambda v: v >= k}[cp[0]]
+                return Or(*[fm for (v, fm) in ((-1, A("neg")), (0, A("zero")), (1, And(Not(A("neg")), Not(A("zero"))))) if test(v)])
+            if is_res(n):
+                return Not(A("zero"))      # used as a truth value
+            return None
+
+        def eff(e, e0=e0):
+            if e is e0:
+                return [("havoc_all", ["neg", "zero"]), ("assume", Not(And(A("neg"), A("zero")))), ("set", "cmpd", True)]
+            return None
+        pa = ViewAbs(f, Vocab(["neg", "zero", "cmpd"]), leaf, eff, init=Not(A("cmpd")))
+        bad = None
+        for ret in common.returns(f):
+            ok = ret_value(ctx.fb(), pa, f, ret)
+            if ok == F:
+                continue
+            succ = T if ok is None else ok
+            if not pa.entails(ret, Or(Not(succ), Not(A("cmpd")), And(Not(A("neg")), Not(A("zero"))))):
+                bad = ret
+                break
+        r.expect(bad is None, f, e0, "expiry not checked", "initTls does not fail on an expired (cmp < 0) or unparseable (cmp == 0) server certificate notAfter%s" % (
+            " (it can return true at line %s with: %s)" % (bad.line, ",".join(pa.describe(bad))) if bad is not None else ""),
+            okdesc="server certificate notAfter: cmp == 0 and cmp < 0 both fail")
 
 
 def r4(ctx, r):
     fb = ctx.fb()
-    dh = fn(ctx, "driveHandshake")
+    dh = vfn(ctx, "driveHandshake")
     hs = ssl_calls(dh, ("SSL_do_handshake",))
     if len(hs) != 1:
         raise AnalysisBroken("driveHandshake: %d SSL_do_handshake calls" % len(hs))
-    rc = c01._result_var(dh, hs[0][0])
-    vocab = Vocab(["hs_ok", "handled"])
+    rcd = result_decl(dh, hs[0][0])
+    errd = {result_decl(dh, e) for (e, nm) in ssl_calls(dh, ("SSL_get_error",))} - {None}
+    WANT = {"SSL_ERROR_WANT_READ": "want_r", "SSL_ERROR_WANT_WRITE": "want_w"}
+    vocab = Vocab(["hs_ok", "handled", "want_r", "want_w"])
 
     def leaf(n):
         if n.get("k") == "bin" and n["op"] in ("==", "!="):
-            l = strip_casts(n["lhs"])
-            if l.get("k") == "var" and l["n"] == rc and const_value(n["rhs"]) == 1:
+            l, rr = strip_casts(n["lhs"]), strip_casts(n["rhs"])
+            if l.get("k") == "var" and rcd is not None and l.get("d") == rcd and const_value(rr) == 1:
                 return A("hs_ok") if n["op"] == "==" else Not(A("hs_ok"))
+            # SSL_get_error(...) == SSL_ERROR_WANT_READ / _WRITE (the result is identified by dataflow, the constant by its macro)
+            if l.get("k") == "var" and l.get("d") in errd and rr.get("mac") in WANT:
+                return A(WANT[rr["mac"]]) if n["op"] == "==" else Not(A(WANT[rr["mac"]]))
         return cbset_leaf(n)
     closes = [e for e in dh.stmts() if e.node.get("k") == "mcall" and e.node.get("callee") == TE + "::closeNow"]
     wants = [e for e in dh.stmts() if e.node.get("k") == "mcall" and e.node.get("callee") == TE + "::updateInterest"]
@@ -306,25 +1026,30 @@ def r4(ctx, r):
             return [("havoc", "hs_ok")]
         if e in closes or e in wants:
             return [("set", "handled", True)]
+        if e.kind == "stmt" and any(e.node is x.node for (x, nm) in ssl_calls(dh, ("SSL_get_error",))):
+            return [("havoc_all", ["want_r", "want_w"]), ("assume", Not(And(A("want_r"), A("want_w"))))]
         return None
-    pa = PredAbs(dh, vocab, leaf, eff, init=And(Not(A("hs_ok")), Not(A("handled"))))
-    for e in cb_invocations(dh, "onConnect"):
+    pa = ViewAbs(dh, vocab, leaf, eff, init=And(Not(A("hs_ok")), Not(A("handled")), Not(A("want_r")), Not(A("want_w"))))
+    ann = cb_invocations(dh, "onConnect")
+    for e in ann:
         r.instance()
         r.expect(pa.entails(e, A("hs_ok")), dh, e, "announce before handshake success", "driveHandshake announces the session as connected on a path where SSL_do_handshake() == 1 was not established",
                  okdesc="driveHandshake: onConnect only after SSL_do_handshake() == 1")
+    # every way of reporting 'not open' (return false, or handing back the false of a helper) is behind closeNow / updateInterest
     for ret in common.returns(dh):
-        if const_value(ret.node.get("v") or {}) == 0:
-            r.instance()
-            r.expect(pa.entails(ret, A("handled")), dh, ret, "handshake failure not closed", "driveHandshake returns false at line %s without closing the session or re-arming for WANT_READ/WRITE: "
-                     "a failed handshake leaves a half-open session" % ret.line, okdesc="return false at line %s after closeNow / updateInterest" % ret.line)
-    # WANT_* is the only non-closing failure
+        ok = ret_value(fb, pa, dh, ret)
+        if ok == T:
+            continue
+        r.instance()
+        r.expect(pa.entails(ret, Or(ok if ok is not None else F, A("handled"))), dh, ret, "handshake failure not closed", "driveHandshake returns false at line %s without closing the session or re-arming for WANT_READ/WRITE: "
+                 "a failed handshake leaves a half-open session" % ret.line, okdesc="return false at line %s after closeNow / updateInterest" % ret.line)
+    # WANT_* is the only non-closing failure: a re-arm that is not behind handshake success is behind SSL_get_error() == WANT_READ / WANT_WRITE
     r.instance()
-    wt = [b for b in dh.blocks.values() if b.cond is not None and any(x.get("mac") in ("SSL_ERROR_WANT_READ", "SSL_ERROR_WANT_WRITE") for x in walk(b.cond))]
-    r.expect(bool(wt) and all(any(search(dh, ("block", s), lambda x, w=w: x is w, eh=False) is not None for b in wt for s in b.succs if s is not None) or True for w in wants) and
-             all(elem_after_any(dh, w, wt) for w in wants if not pa.entails(w, A("hs_ok"))), dh, None, "re-arm without WANT",
+    pend = [w for w in wants if not pa.entails(w, A("hs_ok"))]
+    r.expect(bool(pend) and all(pa.entails(w, Or(A("hs_ok"), A("want_r"), A("want_w"))) for w in pend), dh, None, "re-arm without WANT",
              "driveHandshake keeps a failing handshake alive on something other than SSL_ERROR_WANT_READ/WRITE", okdesc="only WANT_READ/WANT_WRITE keep the handshake pending")
     # plain-TCP announcements only without TLS
-    dc = fn(ctx, "doConnect")
+    dc = vfn(ctx, "doConnect")
     vocab2 = Vocab(["reqtls"])
 
     def leaf2(n):
@@ -333,37 +1058,47 @@ def r4(ctx, r):
             if l.get("k") == "member" and l["n"].endswith("ConnectReq::tls") and rr.get("k") == "enum" and last(rr["n"]) == "None":
                 return Not(A("reqtls")) if n["op"] == "==" else A("reqtls")
         return cbset_leaf(n)
-    pa2 = PredAbs(dc, vocab2, leaf2, lambda e: None)
-    for e in cb_invocations(dc, "onConnect"):
+    pa2 = ViewAbs(dc, vocab2, leaf2, lambda e: None)
+    ann2 = cb_invocations(dc, "onConnect")
+    for e in ann2:
         r.instance()
         r.expect(pa2.entails(e, Not(A("reqtls"))), dc, e, "immediate announce on TLS connect", "doConnect announces a connection at TCP-connect time although TLS was requested (before any handshake)",
                  okdesc="doConnect: immediate onConnect only for non-TLS requests")
-    os_ = fn(ctx, "onSession")
-    pa3 = PredAbs(os_, Vocab(["tls", "hs", "open", "dh_ok"]), lambda n: c01.tls_leaf(n) or cbset_leaf(n), c01.tls_effects(fb), init=c01.TLS_AXIOM)
-    for e in cb_invocations(os_, "onConnect"):
+    os_ = vfn(ctx, "onSession")
+    pa3 = ViewAbs(os_, Vocab(["tls", "hs", "open", "dh_ok"]), lambda n: tls_leaf(n) or cbset_leaf(n), tls_eff, init=TLS_AXIOM)
+    ann3 = cb_invocations(os_, "onConnect")
+    for e in ann3:
         r.instance()
         r.expect(pa3.entails(e, Not(A("tls"))), os_, e, "TCP-level announce on TLS session", "onSession announces a TLS session as connected when the TCP connect completes, before the handshake",
                  okdesc="onSession: EPOLLOUT announce only when tlsMode == None")
-    # closed set of announce sites
+    # closed set of announce sites: the three functions above (each judged with the helpers it runs through spliced in); an invocation in
+    # any other function counts only if every call chain to it starts in one of the three and was spliced into its view (and so judged there)
     r.instance()
-    sites = {f.name for f in fb.in_file(FILE) if f.ok and cb_invocations(f, "onConnect")}
-    r.expect(sites == {TE + "::doConnect", TE + "::onSession", TE + "::driveHandshake"}, TE, None, "new announce site", "onConnect is invoked from %s" % sorted(short(s) for s in sites),
+    roots = {TE + "::doConnect": dc, TE + "::onSession": os_, TE + "::driveHandshake": dh}
+    cg = ctx.cg()
+
+    def covered(name, seen=()):
+        cs = cg.callers.get(name, [])
+        if not cs or name in seen:
+            return False
+        for (g, e, n) in cs:
+            hosts = [rn for rn, v in roots.items() if g.name == rn or g.name in v.inlined_names]
+            if not hosts or any(name not in roots[rn].inlined_names for rn in hosts):
+                return False
+            if g.name not in roots and not covered(g.name, seen + (name,)):
+                return False
+        return True
+    sites = {f.name for f in fb.in_file(FILE) if f.ok and cb_invocations(f, "onConnect") and not (f.name not in roots and covered(f.name))}
+    sites |= {rn for rn, lst in ((TE + "::doConnect", ann2), (TE + "::onSession", ann3), (TE + "::driveHandshake", ann)) if lst}
+    r.expect(sites == set(roots), TE, None, "new announce site", "onConnect is invoked from %s" % sorted(short(s) for s in sites),
              okdesc="onConnect sites = {doConnect, onSession, driveHandshake}")
-
-
-def elem_after_any(f, elem, blocks):
-    for b in blocks:
-        for s in b.succs:
-            if s is not None and search(f, ("block", s), lambda x: x is elem, eh=False) is not None:
-                return True
-    return False
 
 
 def r5(ctx, r):
     fb = ctx.fb()
     # invariant: a TLS context exists only if that side's TLS is enabled
-    it = fn(ctx, "initTls")
-    pa0 = PredAbs(it, Vocab(["srv_en", "srv_def", "srv_verify", "cli_en", "cli_def", "cli_verify"]), cfg_leaf, lambda e: None)
+    it = vfn(ctx, "initTls")
+    pa0 = ViewAbs(it, Vocab(["srv_en", "srv_def", "srv_verify", "cli_en", "cli_def", "cli_verify"]), cfg_leaf, lambda e: None)
     for (e, nm) in ssl_calls(it, ("SSL_CTX_new",)):
         p = it.nodes.get(it.parent.get(e.node["id"]))
         fld = field_of(p["lhs"]) if p is not None and p.get("k") == "bin" else None
@@ -379,11 +1114,11 @@ def r5(ctx, r):
                 r.instance()
                 v = common.assigned_value(g, n)
                 isnull = v is not None and (strip_casts(v).get("k") == "null" or const_value(v) == 0)
-                r.expect(last(g.name) in ("initTls",) or (last(g.name) == "freeTls" and isnull), g, e, "%s written" % fld, "%s assigns %s" % (short(g.name), fld),
+                r.expect(g.name == TE + "::initTls" or g.name in it.inlined_names or (last(g.name) == "freeTls" and isnull), g, e, "%s written" % fld, "%s assigns %s" % (short(g.name), fld),
                          okdesc="%s: %s %s" % (short(g.name), fld, "= nullptr" if isnull else "created"))
     # doConnect: requested ⇒ session carries SSL
     for name, reqfield, want, ctxfield, side in (("doConnect", "ConnectReq::tls", "Client", "_sslCli", "cli"), ("onListener", "Listener::tls", "Server", "_sslSrv", "srv")):
-        f = fn(ctx, name)
+        f = vfn(ctx, name)
         vocab = Vocab(["req", "en", "ctx", "stls"])
 
         def leaf(n, reqfield=reqfield, want=want, ctxfield=ctxfield, side=side):
@@ -411,7 +1146,7 @@ def r5(ctx, r):
             # a TLS listener exists only if the server context existed when it was added (checked below in doAddListener);
             # the context is freed only after all listeners are closed (shutdownDrain order, C05)
             init = And(init, Or(Not(A("req")), A("ctx")))
-        pa = PredAbs(f, vocab, leaf, eff, init=init)
+        pa = ViewAbs(f, vocab, leaf, eff, init=init)
         ins = common.member_calls_on(f, TE + "::_sessions", ("emplace", "insert", "try_emplace"))
         if not ins:
             raise AnalysisBroken("%s no longer inserts sessions" % name)
@@ -423,7 +1158,7 @@ def r5(ctx, r):
     # the OTHER TLS mode is a request for TLS as well (TlsMode has three values): an outgoing connection asked to play the server
     # role / a listener asked to play the client role is refused — the insertion is never reached with that mode
     for name, reqfield, other, coll in (("doConnect", "ConnectReq::tls", "Server", "_sessions"), ("doAddListener", "ListenerCfg::tls", "Client", "_listeners")):
-        f = fn(ctx, name)
+        f = vfn(ctx, name)
 
         def leafo(n, reqfield=reqfield, other=other):
             if n.get("k") == "bin" and n["op"] in ("==", "!="):
@@ -440,7 +1175,7 @@ def r5(ctx, r):
             if isinstance(x, tuple) and x and x[0] == "implies_not_other":
                 return None
             return x
-        pao = PredAbs(f, Vocab(["other"]), leafo2, lambda e: None)
+        pao = ViewAbs(f, Vocab(["other"]), leafo2, lambda e: None)
         sites = common.member_calls_on(f, TE + "::" + coll, ("emplace", "insert", "try_emplace"))
         if not sites:
             raise AnalysisBroken("%s: insertion into %s not found" % (name, coll))
@@ -449,7 +1184,7 @@ def r5(ctx, r):
             r.expect(pao.entails(e, Not(A("other"))), f, e, "TLS requested with the wrong role, served in clear text", "%s reaches its insertion with %s == TlsMode::%s possible: that mode is a request for TLS too, but only the "
                      "matching role is handled, so a PLAINTEXT %s is created and announced — application bytes cross the wire in the clear with no error" % (name, reqfield, other, "session" if coll == "_sessions" else "listener"),
                      okdesc="%s: TlsMode::%s refused before the insertion" % (name, other))
-    dal = fn(ctx, "doAddListener")
+    dal = vfn(ctx, "doAddListener")
     vocab = Vocab(["req", "ctx"])
 
     def leafl(n):
@@ -460,20 +1195,123 @@ def r5(ctx, r):
         if n.get("k") == "member" and n["n"] == TE + "::_sslSrv":
             return A("ctx")
         return None
-    pal = PredAbs(dal, vocab, leafl, lambda e: None)
+    pal = ViewAbs(dal, vocab, leafl, lambda e: None)
     for e in common.member_calls_on(dal, TE + "::_listeners", ("emplace", "insert")):
         r.instance()
         r.expect(pal.entails(e, Or(Not(A("req")), A("ctx"))), dal, e, "TLS listener without context", "a listener with TlsMode::Server is created although no server TLS context exists: its "
                  "connections would be accepted as plaintext", okdesc="doAddListener: TLS listener only with a server context")
 
 
+WRITE_CALLS = ("send", "SSL_write", "write", "sendto", "sendmsg", "writev", "pwrite", "sendfile")
+
+
 def r6(ctx, r):
-    c01.r5(ctx, r)
+    """no clear-text application bytes on a TLS session (the clause C01-R5 decides), on views: the write paths with their state predicates
+    and set-up helpers spliced in"""
+    fb = ctx.fb()
+    vocab = Vocab(["tls", "hs", "open", "dh_ok"])
+
+    def inserts(f):
+        return common.member_calls_on(f, TE + "::_sessions", ("emplace", "insert", "try_emplace"))
+
+    def write_calls(f):
+        return [e for e in f.stmts() if e.node.get("k") == "call" and e.node.get("callee") in WRITE_CALLS]
+    # invariant: tlsMode != None  =>  tlsState in {Handshake, Open}, for every session that becomes visible in _sessions: in each function
+    # that inserts a session, on every path to the insertion, a TLS mode given to the new session is followed by its tlsState
+    n_mode = 0
+    creators = [vfn(ctx, last(g.name)) for g in fb.in_file(FILE) if g.ok and g.kind == "method" and g.cls == TE and inserts(g)]
+    seen_writes = set()
+    for f in creators:
+        def eff(e):
+            if e.kind != "stmt":
+                return None
+            n = e.node
+            if n.get("k") == "bin" and n["op"] == "=" and field_of(n["lhs"]) == SESS + "::tlsMode":
+                v = strip_casts(n["rhs"])
+                return [("set", "mode", not (v.get("k") == "enum" and last(v["n"]) == "None")), ("set", "state", False)]
+            if n.get("k") == "bin" and n["op"] == "=" and field_of(n["lhs"]) == SESS + "::tlsState":
+                v = strip_casts(n["rhs"])
+                return [("set", "state", v.get("k") == "enum" and last(v["n"]) in ("Handshake", "Open"))]
+            if n.get("k") == "call" and n.get("callee") == "std::make_unique" and "Session" in n.get("t", ""):
+                return [("set", "mode", False), ("set", "state", False)]
+            return None
+        pa = ViewAbs(f, Vocab(["mode", "state"]), cbset_leaf, eff, init=And(Not(A("mode")), Not(A("state"))))
+        ws = common.field_writes(f, SESS + "::tlsMode")
+        n_mode += 1 if ws else 0
+        for (e, node, kind) in ws:
+            seen_writes.add((e.line, f.file))
+        for e in inserts(f):
+            r.instance()
+            r.expect(pa.entails(e, Or(Not(A("mode")), A("state"))), f, e, "tlsMode without tlsState", "a session gets a TLS mode and becomes visible in _sessions without its tlsState set to Handshake/Open: "
+                     "the write path would treat it as plaintext", okdesc="%s: tlsMode set ⇒ tlsState = Handshake before insertion" % short(f.name))
+    for g in fb.in_file(FILE):
+        if not g.ok:
+            continue
+        for (e, node, kind) in common.field_writes(g, SESS + "::tlsMode"):
+            if (e.line, g.file) not in seen_writes:
+                raise AnalysisBroken("%s:%d assigns Session::tlsMode outside the functions that create sessions (and outside the helpers spliced into them): the rule cannot relate it to a session's creation" % (short(g.name), e.line))
+        for (e, node, kind) in common.field_writes(g, SESS + "::tlsState"):
+            r.instance()
+            v = common.assigned_value(g, node)
+            v = strip_casts(v) if v else None
+            r.expect(v is not None and v.get("k") == "enum" and last(v["n"]) in ("Handshake", "Open"), g, e, "tlsState reset",
+                     "tlsState is assigned something other than Handshake/Open", okdesc="%s: tlsState = %s" % (short(g.name), last(v["n"]) if v and v.get("n") else "?"))
+    if n_mode < 2:
+        raise AnalysisBroken("expected tlsMode to be assigned in onListener and doConnect")
+    # summary of driveHandshake (used by tls_eff): it returns true only with the session Open
+    dh = vfn(ctx, "driveHandshake")
+    pa_dh = ViewAbs(dh, vocab, tls_leaf, tls_eff, init=TLS_AXIOM)
+    nsum = 0
+    for ret in common.returns(dh):
+        ok = ret_value(fb, pa_dh, dh, ret)
+        if ok == F:
+            continue
+        nsum += 1
+        r.instance()
+        r.expect(pa_dh.entails(ret, Or(Not(ok if ok is not None else T), And(A("open"), Not(A("hs"))))), dh, ret, "handshake summary", "driveHandshake returns true on a path where tlsState is not Open",
+                 okdesc="driveHandshake: return true ⇒ tlsState == Open")
+    if not nsum:
+        raise AnalysisBroken("driveHandshake has no return that can be true")
+    ds = vfn(ctx, "doSend")
+    pa = ViewAbs(ds, vocab, tls_leaf, tls_eff, init=TLS_AXIOM)
+    for e in write_calls(ds):
+        if e.node["callee"] == "SSL_write":
+            r.instance()
+            r.expect(pa.entails(e, And(A("tls"), A("open"))), ds, e, "SSL_write outside Open", "SSL_write reachable when the TLS session is not established",
+                     okdesc="doSend: SSL_write only when tls && Open")
+        else:
+            r.instance()
+            r.expect(pa.entails(e, Not(A("tls"))), ds, e, "plaintext on TLS session",
+                     "the raw ::%s on the session descriptor is reachable for a session with TLS (known: %s): application bytes would leave in clear text or corrupt the handshake" % (
+                         e.node["callee"], ",".join(pa.describe(e)) or "nothing"), okdesc="doSend: raw send only when tlsMode == None")
+    # writePending: caller context from onSession
+    os_ = vfn(ctx, "onSession")
+    pa_os = ViewAbs(os_, vocab, tls_leaf, tls_eff, init=TLS_AXIOM)
+    calls = [e for e in os_.stmts() if e.node.get("k") == "mcall" and e.node.get("callee") == TE + "::writePending"]
+    callers = {f.name for (f, e, n) in ctx.cg().callers.get(TE + "::writePending", [])}
+    r.instance()
+    r.expect(callers == {TE + "::onSession"} and calls, os_, None, "writePending callers", "writePending is called from %s; its TLS-state precondition is established only in onSession" % sorted(callers),
+             okdesc="writePending called only from onSession")
+    pre = Not(And(A("tls"), A("hs")))
+    for c in calls:
+        r.instance()
+        r.expect(pa_os.entails(c, pre), os_, c, "writePending during handshake", "onSession can call writePending while the TLS handshake is still in progress",
+                 okdesc="onSession: writePending only after the handshake branch")
+    wp = vfn(ctx, "writePending")
+    pa_wp = ViewAbs(wp, vocab, tls_leaf, tls_eff, init=And(TLS_AXIOM, pre))
+    for e in write_calls(wp):
+        r.instance()
+        if e.node["callee"] == "SSL_write":
+            r.expect(pa_wp.entails(e, And(A("tls"), A("open"))), wp, e, "SSL_write outside Open", "SSL_write reachable when not Open", okdesc="writePending: SSL_write only when tls && Open")
+        else:
+            r.expect(pa_wp.entails(e, Not(A("tls"))), wp, e, "plaintext on TLS session",
+                     "the raw ::%s in writePending is reachable for a TLS session (known: %s)" % (e.node["callee"], ",".join(pa_wp.describe(e)) or "nothing"),
+                     okdesc="writePending: raw send only when tlsMode == None")
 
 
 def r7(ctx, r):
     fb = ctx.fb()
-    dc = fn(ctx, "doConnect")
+    dc = vfn(ctx, "doConnect")      # with the session set-up helpers spliced in (their context argument resolved for this caller)
     news = [e for (e, nm) in ssl_calls(dc, ("SSL_new",)) if field_of(e.node["args"][0]) == TE + "::_sslCli"]
     if not news:
         raise AnalysisBroken("doConnect no longer creates client SSL objects")
@@ -501,7 +1339,17 @@ def r8(ctx, r):
     fb = ctx.fb()
     rec = fb.record(HC + "::TlsConfig")
     ei = fb.func(HC + "::ensureInitialized", file_suffix=HCFILE)
-    used = {last(n["n"]) for n in ei.nodes.values() if n.get("k") == "member" and n["n"].startswith(HC + "::TlsConfig::")}
+    # where the transport configuration is built = ensureInitialized and the HttpClient methods it runs through (a builder helper is part of it)
+    build, work = {}, [ei]
+    while work:
+        g = work.pop()
+        if g.sig in build:
+            continue
+        build[g.sig] = g
+        for (e, n, c) in ctx.cg().callees_of(g):
+            if c.startswith(HC + "::") and n.get("k") in ("call", "mcall") and not n.get("virt"):
+                work += [h for h in fb.by_name.get(c, []) if h.ok and h.cls == HC and h.file == ei.file]
+    used = {last(n["n"]) for g in build.values() for n in g.nodes.values() if n.get("k") == "member" and n["n"].startswith(HC + "::TlsConfig::")}
     if not rec["fields"]:
         raise AnalysisBroken("HttpClient::TlsConfig has no fields")
     for fld in rec["fields"]:
@@ -846,7 +1694,7 @@ def run(ctx, ck):
     ck.run_rule("C07-R3", "certificate/key/CA load results are checked; expired certificate fails start", "A2", lambda r: r3(ctx, r))
     ck.run_rule("C07-R4", "announce only after the handshake; failing handshakes close", "A5", lambda r: r4(ctx, r))
     ck.run_rule("C07-R5", "a TLS request is honoured or refused, never dropped", "A5 with checked invariants", lambda r: r5(ctx, r))
-    ck.run_rule("C07-R6", "no clear-text application bytes on a TLS session (= C01-R5)", "A5", lambda r: r6(ctx, r))
+    ck.run_rule("C07-R6", "no clear-text application bytes on a TLS session (the clause of C01-R5, judged through helpers)", "A5", lambda r: r6(ctx, r))
     ck.run_rule("C07-R7", "the peer's name is checked", "A10 + dataflow", lambda r: r7(ctx, r))
     ck.run_rule("C07-R8", "the HTTP client forwards its TLS configuration", "A10 closed set", lambda r: r8(ctx, r))
     ck.run_rule("C07-R10", "HTTP server: TLS configuration is never dropped, selects a TLS listener and is forwarded whole", "A3 who-may-write + A10 closed set", lambda r: r10(ctx, r))
